@@ -248,3 +248,42 @@ fn get_metrics(status: Option<TransformStatus>, file: &str) -> Option<Metrics> {
     }
     None
 }
+
+#[cfg(datadog_dd_native_iast_rewriter_js_verif)]
+pub mod verif {
+    use super::*;
+
+    pub fn to_config(rc: &RewriterConfig) -> Config {
+        rc.to_config()
+    }
+
+    pub fn default_rewriter_config() -> RewriterConfig {
+        RewriterConfig::default()
+    }
+
+    pub fn metrics(status: Option<TransformStatus>, file: &str) -> Option<Metrics> {
+        get_metrics(status, file)
+    }
+
+    /// Body of `Rewriter::rewrite` without the two JsValue conversions.
+    pub fn rewrite_with_reader<R: Read>(
+        config: &Config,
+        code: String,
+        file: &str,
+        reader: &impl FileReader<R>,
+    ) -> std::result::Result<super::Result, String> {
+        rewrite_js(code, file, config, reader)
+            .map(|result| super::Result {
+                content: print_js(
+                    &result.code,
+                    &result.source_map,
+                    &result.original_source_map,
+                    config,
+                )
+                .into_owned(),
+                metrics: get_metrics(result.transform_status, file),
+                literals_result: result.literals_result,
+            })
+            .map_err(|e| format!("{e}"))
+    }
+}
